@@ -121,6 +121,7 @@ def label_program(ctx, g: ModelGrammar, tables: dict, program: Any, e: int = 0):
 
     it = Interp(prog, None, lambda *_: None, call_model, max_depth=60, max_traces=2)
     it.allow_recursion = True
+    it.strict_iter = True
     p = fn.params
     env = {p[0]: program, p[1]: Sym("grammar"), f"{p[1]}.non_terminals": tables["self.non_terminals"],
            f"{p[1]}.expansion_depthing": bool(e), f"{p[1]}.abstract_dist_to_t": tables.get("self.abstract_dist_to_t", {})}
